@@ -172,6 +172,10 @@ func (c *compiler) evalUserFunction(node *userFunction, args []ast.Expression) (
 	octx := c.ctx
 	defer func() { c.ctx = octx }()
 
+	if len(args) < len(node.Parameters) {
+		return nil, fmt.Errorf("too few arguments (%d for %d)", len(args), len(node.Parameters))
+	}
+
 	c.ctx = c.ctx.New()
 	for i, p := range node.Parameters {
 		a := args[i]
@@ -681,6 +685,10 @@ func (c *compiler) evalCallExpression(node *ast.CallExpression) (interface{}, er
 		mname := node.Function.String()
 		if i, ok := node.Function.(*ast.Identifier); ok {
 			mname = i.Value
+		}
+
+		if !rc.IsValid() || (rc.Kind() == reflect.Ptr && rc.IsNil()) {
+			return nil, fmt.Errorf("cannot call method '%s' on nil (%s)", mname, node.Callee.String())
 		}
 
 		rv = rc.MethodByName(mname)
